@@ -64,7 +64,13 @@ def holdsCore (p : Params) (calls : List Call) (o : Obs) : Bool :=
     | .rok => cr.1.kind == .revoke
     | _ => true) &&
   (if o.results.contains .running then true else
-    o.maps == o.results.filterMap ORes.okTup &&
+    -- at most one mapping exists; every stored mapping was returned by a successful activation
+    -- (a failed activation leaves nothing behind); every returned mapping is stored
+    decide (o.maps.length ≤ 1) &&
+    o.maps.all (fun t => o.results.contains (.ok t true)) &&
+    o.results.all (fun r => match r with
+      | .ok t _ => o.maps.contains t
+      | _ => true) &&
     match o.orec with
     | none => true
     | some r =>
